@@ -706,18 +706,27 @@ impl<'a> Run<'a> {
             out.push((f, x1, c1.n_inexact == 0));
         }
         // --- file API (extension dispatch), now and then
-        if self.files && self.n_obj % 7 == 1 {
+        if self.files && self.n_obj % 3 == 1 {
             for (ext, f) in [("yaml", Fmt::Yaml), ("json", Fmt::Json), ("bin", Fmt::Bin)] {
                 if (f == Fmt::Bin && hit) || (f == Fmt::Json && nonfinite) {
                     continue;
                 }
-                let path = self.tmp.join(format!("c17_{}.{}", self.n_obj, ext));
+                // one file per type and format for the whole run, like a rolling checkpoint file: a save lands on a
+                // fresh path, on a shorter earlier save or on a longer earlier save of the same type
+                let path = self.tmp.join(format!("c17_{}.{}", T::NAME.replace(|c: char| !c.is_ascii_alphanumeric(), "_"), ext));
+                let before = std::fs::metadata(&path).map(|m| m.len()).ok();
                 self.ctx.checked(P, "file_roundtrip");
                 let r = guard(|| -> Result<T, String> {
                     x.to_file(&path).map_err(|e| format!("to_file: {e:#}"))?;
                     T::from_file(&path).map_err(|e| format!("from_file: {e:#}"))
                 });
-                let _ = std::fs::remove_file(&path);
+                let after = std::fs::metadata(&path).map(|m| m.len()).ok();
+                self.ctx.count(match (before, after) {
+                    (None, _) => "serde.file.fresh_path",
+                    (Some(b), Some(a)) if a < b => "serde.file.shorter_over_longer",
+                    (Some(b), Some(a)) if a > b => "serde.file.longer_over_shorter",
+                    _ => "serde.file.same_length_or_unknown",
+                });
                 let ok = match &r {
                     Some(Ok(x1)) => cmp_trees(&tree(x1), &tx, if f == Fmt::Json { Tol::Ulps(1) } else { Tol::Bits }).0.is_ok(),
                     _ => false,
